@@ -113,13 +113,19 @@ static void fill_bytes(char* p, size_t n, uint8_t fill, uint64_t h) {
 }
 static const Ctr kFillCtr[NFILL] = {C_FILL_ZERO, C_FILL_FF, C_FILL_QUOTE, C_FILL_BSLASH, C_FILL_NOISE,
                                     C_FILL_FAKENODE};
+static void fill_repeat(char* p, size_t n, const char* pat, size_t plen) {
+  // p[i] = pat[i % plen], by doubling copies
+  size_t done = plen < n ? plen : n;
+  memcpy(p, pat, done);
+  while (done < n) { size_t c = done < n - done ? done : n - done; memcpy(p + done, p, c); done += c; }
+}
 static void fill_neighbour(char* p, size_t n, bool hostile, const char* like, size_t like_len) {
   if (!n) return;
   if (like && like_len) {
-    for (size_t i = 0; i < n; i++) p[i] = like[i % like_len];
+    fill_repeat(p, n, like, like_len);
   } else if (hostile) {
     static const char pat[] = "\"\\\x01[{\"}],:\\\"\x1f\"";
-    for (size_t i = 0; i < n; i++) p[i] = pat[i % (sizeof(pat) - 1)];
+    fill_repeat(p, n, pat, sizeof(pat) - 1);
   } else {
     memset(p, 0x2e, n);  // '.'
   }
